@@ -240,6 +240,73 @@ def run_pairs():
     return n, fails
 
 
+def run_neighbours():
+    """Several values written at once (Row.set_values, Table.set_values, Table.set_row_values,
+    Table.set_column_values, Row.extend_cells): each keeps its own type next to values that compare
+    equal in Python (True == 1 == 1.0 == Decimal(1), False == 0) or that are written twice."""
+    fails = []
+    n = 0
+    reps = [True, False, 1, 0, 1.0, Decimal("1"), Decimal("2.50"), 7, "txt", "1", "true", "", date(2024, 1, 31), datetime(2024, 1, 31, 0, 0, 0),
+            timedelta(0), timedelta(hours=1, seconds=5), None]
+
+    def writers():
+        def row_set_values(vs):
+            r = Row()
+            r.set_values(list(vs))
+            return [r.get_value(i) for i in range(len(vs))], r
+
+        def row_set_values_on_existing(vs):
+            r = Row(width=1)
+            r.set_values(list(vs))
+            return [r.get_value(i) for i in range(len(vs))], r
+
+        def row_set_values_at_1(vs):
+            r = Row(width=1)
+            r.set_values(list(vs), start=1)
+            return [r.get_value(i + 1) for i in range(len(vs))], r
+
+        def table_set_values(vs):
+            t = Table("T")
+            t.set_values([list(vs), list(reversed(vs))])
+            return [t.get_value((i, 0)) for i in range(len(vs))], t
+
+        def table_set_row_values(vs):
+            t = Table("T", width=2, height=1)
+            t.set_row_values(0, list(vs))
+            return [t.get_value((i, 0)) for i in range(len(vs))], t
+
+        def table_set_column_values(vs):
+            t = Table("T", width=1, height=len(vs))
+            t.set_column_values(0, list(vs))
+            return [t.get_value((0, i)) for i in range(len(vs))], t
+
+        return [("Row.set_values", row_set_values), ("Row.set_values(existing row)", row_set_values_on_existing), ("Row.set_values(start=1)", row_set_values_at_1),
+                ("Table.set_values", table_set_values), ("Table.set_row_values", table_set_row_values), ("Table.set_column_values", table_set_column_values)]
+
+    for name, w in writers():
+        for v1, v2 in itertools.product(reps, reps):
+            for vs in ((v1, v2), (v1, v2, v1)):
+                n += 1
+                try:
+                    back, holder = w(vs)
+                    ok = all(equal(a, b) for a, b in zip(vs, back))
+                    if ok:
+                        h2 = Element.from_tag(holder.serialize())
+                        if isinstance(h2, Row):
+                            back = [h2.get_value(i + (1 if "start=1" in name else 0)) for i in range(len(vs))]
+                        elif "column" in name:
+                            back = [h2.get_value((0, i)) for i in range(len(vs))]
+                        else:
+                            back = [h2.get_value((i, 0)) for i in range(len(vs))]
+                        ok = all(equal(a, b) for a, b in zip(vs, back))
+                except Exception as ex:
+                    ok, back = False, f"{type(ex).__name__}: {ex}"[:100]
+                if not ok:
+                    fails.append({"signature": f"site={name}; class=neighbours:{vclass(v1).split(',')[0]}+{vclass(v2).split(',')[0]}; symptom=value-differs",
+                                  "replay": {"replay_module": "mc.checks.c06", "site": name, "value": [repr(v) for v in vs], "stage": "neighbours", "history": [], "oracle": "each value keeps its type", "expected": repr(list(vs)), "actual": repr(back)}})
+    return n, fails
+
+
 def run_documents():
     """Stage 3: save + reopen. One spreadsheet with a cell per value, one text document with
     a variable, a user field and a user-defined metadata entry per value."""
@@ -336,6 +403,8 @@ def run(prop, tier, vseed):
     n1, f1, classes = run_values()
     n2, f2 = run_pairs()
     n3, f3 = run_documents()
+    n4, f4 = run_neighbours()
+    n3, f3 = n3 + n4, f3 + f4
     nev = n1 + n2 + n3
     cov = {
         "states": nev,
@@ -344,7 +413,7 @@ def run(prop, tier, vseed):
         "evaluations": nev,
         "distinct_nontrivial": len(classes),
         "values": len(lattice()),
-        "rule": "value lattice (bool, int incl. huge/negative, float incl. exponents, Decimal incl. trailing zeros, every string of length <= 3 over an alphabet with white space / XML-special / non-ASCII plus type look-alikes, dates years 1..9999, datetimes x microseconds x zones, whole-second durations incl. negative and multi-day, None) x 8 element carriers x {direct, re-parsed} + saved-and-reopened spreadsheet and text documents (cells, rows, variables, user fields, user-defined metadata) + every ordered pair of type representatives written on the same carrier; distinct_nontrivial = distinct (carrier, value class) pairs",
+        "rule": "value lattice (bool, int incl. huge/negative, float incl. exponents, Decimal incl. trailing zeros, every string of length <= 3 over an alphabet with white space / XML-special / non-ASCII plus type look-alikes, dates years 1..9999, datetimes x microseconds x zones, whole-second durations incl. negative and multi-day, None) x 8 element carriers x {direct, re-parsed} + saved-and-reopened spreadsheet and text documents (cells, rows, variables, user fields, user-defined metadata) + every ordered pair of type representatives written on the same carrier + every ordered pair (and triple v1,v2,v1) of 17 representatives, including values equal in Python but of different ODF types, written at once through Row.set_values / Table.set_values / set_row_values / set_column_values; distinct_nontrivial = distinct (carrier, value class) pairs",
         "samples": [{"carrier": "Table.set_value", "value": "datetime(2024,2,29,23,59,59,999999,+05:30)", "stages": ["direct", "reparsed", "saved"]}],
         "exhaustive": True,
     }
@@ -358,5 +427,7 @@ def replay(rp):
     n1, f1, _ = run_values()
     n2, f2 = run_pairs()
     n3, f3 = run_documents()
+    n4, f4 = run_neighbours()
+    n3, f3 = n3 + n4, f3 + f4
     hits = [x for x in f1 + f2 + f3 if x["replay"]["site"] == rp["site"] and x["replay"]["value"] == rp["value"] and x["replay"]["stage"] == rp["stage"]]
     return 1 if hits else 0
